@@ -153,6 +153,11 @@ def deep_check(ctx, res, tr):
         res.mismatch('hcall (%s %s%s)' % (c['ep'], c['name'], ('!' + c['raised']) if c['raised'] else ''), MC.first_diff(want, out)[:300], out[:120])
     for line, want, out, c in xb[:3]:
         res.mismatch('xiter (%s %s)' % (c['ep'], c['kind']), (MC.first_diff(want, out) if want != 'loop interrupted' else want)[:300], out[:120])
+    rb, nseg, nrounds = tr.check_runs(ctx.driver)
+    res.extra['whole_model_runs_replayed'] = res.extra.get('whole_model_runs_replayed', 0) + nseg
+    res.extra['whole_model_rounds_in_runs'] = res.extra.get('whole_model_rounds_in_runs', 0) + nrounds
+    for g, k, want, out in rb[:3]:
+        res.mismatch('xrun (%s, round %d of %d)' % (g['ep'], k + 1, len(g['rounds'])), MC.first_diff(want, out)[:300], out[:120])
 
 
 def replay_generic(rep, oracles):
